@@ -46,6 +46,8 @@ type engine interface {
 	// restart models a process restart: real engines are closed and reopened on
 	// the same directory, the in-memory one keeps its map.
 	restart()
+	// reopen opens the engine again after the code under test has closed it (MsgStorage.Close).
+	reopen()
 	// destroy closes the engine and removes its directory.
 	destroy()
 }
@@ -86,6 +88,7 @@ type kv struct {
 
 func (e *recEngine) hk() *hooks { return &e.h }
 func (e *recEngine) restart()   {}
+func (e *recEngine) reopen()    {}
 func (e *recEngine) destroy()   {}
 
 func (e *recEngine) Close() error { return nil }
@@ -231,6 +234,8 @@ func (e *fwdEngine) restart() {
 	}
 	e.open()
 }
+
+func (e *fwdEngine) reopen() { e.open() }
 
 func (e *fwdEngine) destroy() {
 	e.Close()
